@@ -328,13 +328,14 @@ def c15_interval_script(rng, name, own_settings, advertised):
     return Script(name, ops, {"suite": "node", "noshrink": any(o.startswith("nexpect") for o in ops)})
 
 
-def c15_timeout_script(rng, name, pts, silence_at, total, ka="-"):
-    """heterogeneous mesh; all datagrams of node 1 are dropped from time silence_at on"""
+def c15_timeout_script(rng, name, pts, silence_at, total, ka="-", shared_adv=None):
+    """heterogeneous mesh; all datagrams of node 1 are dropped from time silence_at on.  `shared_adv`: every node advertises this same (private) address
+    next to its real one, so each peer's address list contains an address that is also the node's own — a timed-out peer is dialled again all the same"""
     n = len(pts)
     ports = list(range(1, n + 1))
     ops = ["nkeys 3 %s" % rng.bytes(6).hex()]
     for p, pt in zip(ports, pts):
-        ops.append(node_line(p, pt=pt, ka=ka, key=(p - 1) % 3, trust=(0, 1, 2)))
+        ops.append(node_line(p, pt=pt, ka=ka, key=(p - 1) % 3, trust=(0, 1, 2), adv=[shared_adv] if shared_adv else None))
     for p in range(1, n):
         ops.append("npeer %d p%d" % (p, p + 1))
         ops += drain(6)
